@@ -23,6 +23,7 @@ import (
 	"testing/synctest"
 	"time"
 	"unicode"
+	"unicode/utf8"
 
 	"github.com/AdguardTeam/AdGuardHome/internal/aghnet"
 	"github.com/AdguardTeam/AdGuardHome/internal/filtering"
@@ -44,6 +45,7 @@ import (
 // the block's base time (the fake clock at reset).
 //
 //	C07.consts   => limit scan offset nStatus status* nReasons reason* fileName maxEntrySize bufferSize   (constants read from the package)
+//	C07.fold field term   => equalFold containsFold   (strings.EqualFold and the package's containsFold)
 //	C07.reset full memSize fileEnabled enabled ivlMs nRules rule* nHosts host* nClients {id name ignore}*   => m c r
 //	C07.add id dt qname cid ip ipAnon reason isFiltered variant   => rt m c r
 //	C07.addthen <add fields> clear|shutdown|restart m f e         => rt m c r   (the op overtakes the flush goroutine of Add)
@@ -521,7 +523,8 @@ func (c *c07Ctx) entryOK(id int, m map[string]any) bool {
 		return ci == nil
 	}
 
-	return ci != nil && str(ci["name"]) == cl.Name
+	// (the JSON answer shows every invalid byte of a name as U+FFFD)
+	return ci != nil && str(ci["name"]) == string([]rune(cl.Name))
 }
 
 func (c *c07Ctx) search(f []string) []string {
@@ -714,6 +717,11 @@ func c07Run(f []string) []string {
 	if op == "C07.str" {
 		return c07Str(vutil.Unhex(f[1]))
 	}
+	if op == "C07.fold" {
+		a, b := vutil.Unhex(f[1]), vutil.Unhex(f[2])
+
+		return []string{vutil.B(strings.EqualFold(a, b)), vutil.B(containsFold(a, b))}
+	}
 	if op == "C07.reset" {
 		if time.Now().Year() > 2250 {
 			panic("fake clock of the synctest bubble is nearly exhausted (int64 ns): too many/too long blocks")
@@ -810,13 +818,17 @@ var c07HostPool = []string{
 	"shop.xn--mnchen-3ya.de",
 }
 
-var c07CIDPool = []string{"", "", "", "laptop", "kids-phone", "my-kitchen", "we&ird", "Sam-K", "dash\\id"}
+var c07CIDPool = []string{"", "", "", "laptop", "kids-phone", "my-kitchen", "we&ird", "Sam-K", "dash\\id",
+	"νικος", "σίγμα-ς", "straße-7", "мир"}
 
 var c07IPPool = []string{
 	"192.168.1.5", "192.168.1.55", "10.0.0.1", "2001:db8::1", "2001:db8::abcd", "127.0.0.1", "fe80::1", "1.2.3.4",
 }
 
-var c07NamePool = []string{"My Kitchen", "Kids Phone", "laptop-Sam", "Office K&S", "SKY", "printer", "", "a\"b"}
+var c07NamePool = []string{"My Kitchen", "Kids Phone", "laptop-Sam", "Office K&S", "SKY", "printer", "", "a\"b",
+	// letters with more than two case forms or case forms of different UTF-8 length
+	"ΝΙΚΟΣ", "Νίκος Σπίτι ς", "Haus STRAẞE 7", "straße", "\u212A-phone Kk", "Meſſage SsS", "İstanbul ıIi",
+	"ǅungla ǆ Ǆ", "Ωmega ω \u2126", "µ-μ-Μ", "Привет МИР", "bad\xffname", "Å\u212Bå"}
 
 var c07RulePool = []string{"ads.tracker.net", "||example.org^", "*.local", "|k.s^", "sync.example", "@@||www.example.org^"}
 
@@ -1003,7 +1015,8 @@ var c07BadTimes = []string{"yesterday", "2000-01-01", "2000-01-01T00:00:00", "94
 
 var c07ZeroTimes = []string{"0001-01-01T00:00:00Z", "0001-01-01T00:00:00.000000000Z", "0001-01-01T01:00:00+01:00"}
 
-var c07Terms = []string{"Пример.рф", "ПРИМЕР", "\"Пример.РФ\"", "ПРИМЕР.РФ", "MÜNCHEN", "Bücher", "САЙТ", "XN--E1AFMKFD.xn--p1ai", "прим", "kit", "K", "s", ".", "a&b", "x\"y", "\\", "\"", "\"\"", "пример", "\"пример.рф\"", "München", "münchen.de",
+var c07Terms = []string{"νικος", "ΝΙΚΟΣ", "νικοσ", "ικος", "\"νικος\"", "\"ΝΙΚΟΣ\"", "σ", "ς", "straße", "STRAẞE", "ẞ", "k-ph", "\u212A",
+	"mess", "ſ", "ı", "İ", "ǆ", "ǅ", "Ǆ", "ω", "\u2126", "µ", "μ", "Μ", "мир", "МИР", "\xff", "\ufffd", "å", "\u212B","Пример.рф", "ПРИМЕР", "\"Пример.РФ\"", "ПРИМЕР.РФ", "MÜNCHEN", "Bücher", "САЙТ", "XN--E1AFMKFD.xn--p1ai", "прим", "kit", "K", "s", ".", "a&b", "x\"y", "\\", "\"", "\"\"", "пример", "\"пример.рф\"", "München", "münchen.de",
 	"xn--", "example", "\"example.org\"", "\"EXAMPLE.ORG\"", "192.168.1.5", "\"192.168.1.5\"", "168.1", "2001:DB8", "sam", "KITCHEN",
 	"<tag>", "nomatch-zzz", "\"kids-phone\"", "phone", "\t", "k.s", "kk", "kkkk", " ", "sky"}
 
@@ -1064,10 +1077,56 @@ func (g *c07Gen) idnTerm(host string) string {
 	return t
 }
 
+// c07FoldVariant replaces letters by other members of their simple-folding
+// orbit (σ ς Σ; k K KELVIN; ß ẞ; ...), so that the result is equal to s under
+// case folding but not necessarily under lower-casing, nor of the same length.
+func c07FoldVariant(r *rand.Rand, s string) string {
+	rs := []rune(s)
+	for i, x := range rs {
+		if x == utf8.RuneError {
+			continue
+		}
+		for k := r.IntN(4); k > 0; k-- {
+			x = unicode.SimpleFold(x)
+		}
+		rs[i] = x
+	}
+
+	return string(rs)
+}
+
 func (g *c07Gen) term() string {
 	r := g.r
 	if len(g.added) == 0 || r.IntN(4) == 0 {
 		return vutil.Pick(r, c07Terms)
+	}
+	if r.IntN(4) == 0 {
+		// a client name or ClientID of the block in another case form: whole
+		// (quoted or not), a run of runes, or a run of bytes (possibly cutting a rune)
+		f := vutil.Pick(r, g.names)
+		if r.IntN(3) == 0 {
+			f = vutil.Pick(r, g.cids)
+		}
+		if f != "" {
+			if utf8.ValidString(f) {
+				f = c07FoldVariant(r, f)
+			}
+			switch r.IntN(4) {
+			case 0:
+				return "\"" + f + "\""
+			case 1:
+				return f
+			case 2:
+				rs := []rune(f)
+				i := r.IntN(len(rs))
+
+				return string(rs[i : i+1+r.IntN(len(rs)-i)])
+			default:
+				i := r.IntN(len(f))
+
+				return f[i : i+1+r.IntN(len(f)-i)]
+			}
+		}
 	}
 	e := vutil.Pick(r, g.added)
 	if strings.Contains(e.host, "xn--") && r.IntN(5) < 3 {
@@ -1216,6 +1275,42 @@ func c07Str4Gen(r *rand.Rand) string {
 
 		return string(b)
 	}
+}
+
+// c07FoldPair is a field value and a term for the direct check of the folding
+// primitives: pool names and their fold variants, rune runs, byte runs (invalid
+// UTF-8), random bytes.
+func c07FoldPair(r *rand.Rand) (field, term string) {
+	field = vutil.Pick(r, c07NamePool)
+	if r.IntN(4) == 0 {
+		field = vutil.Pick(r, c07CIDPool) + vutil.Pick(r, c07HostPool)
+	}
+	if r.IntN(10) == 0 {
+		field = c07Garbage(r)
+	}
+	switch r.IntN(6) {
+	case 0:
+		term = vutil.Pick(r, c07Terms)
+	case 1:
+		term = c07Garbage(r)
+	default:
+		term = field
+		if utf8.ValidString(term) {
+			term = c07FoldVariant(r, term)
+		}
+		if term != "" && r.IntN(3) != 0 {
+			if r.IntN(2) == 0 {
+				rs := []rune(term)
+				i := r.IntN(len(rs))
+				term = string(rs[i : i+1+r.IntN(len(rs)-i)])
+			} else {
+				i := r.IntN(len(term))
+				term = term[i : i+1+r.IntN(len(term)-i)]
+			}
+		}
+	}
+
+	return field, term
 }
 
 // c07Garbage is a short string of arbitrary bytes: printable, control, invalid
@@ -1543,6 +1638,12 @@ func c07GenAll(r *rand.Rand, emit vutil.Emit) {
 	g := &c07Gen{r: r, emit: emit}
 	emit("C07.consts")
 	n := vutil.N(300)
+	// the text primitives of the term criterion: strings.EqualFold and the
+	// package's containsFold against the model's rune/orbit computation
+	for i := 0; i < n/2+300; i++ {
+		a, b := c07FoldPair(r)
+		emit("C07.fold", vutil.Hex(a), vutil.Hex(b))
+	}
 	// string level of the file format: the real encoder / raw cut / decoder
 	for i := 0; i < n/4+100; i++ {
 		emit("C07.str", vutil.Hex(c07Str4Gen(r)))
